@@ -156,6 +156,21 @@ def check_layout_object(ctx, l, case, accepted_hint=True):
             ctx.fail(case, f"zone index incoherent: get_zone_id(grid of '{n}') = {zid!r} does not map back to that grid",
                      key=case.get("key"))
             break
+    # a grid that is no zone (a proper view of a zone, a shifted copy) gets no name - or a name that maps to an equal grid
+    for n, z in itertools.chain(l.static_traps.items(), l.special_grid.items()):
+        probes = [z.shift(0.25, 0.0)]
+        nx_, ny_ = z.shape
+        if nx_ >= 2 and ny_ >= 1:
+            probes += [z[1:, :], z[0:1, :], z.get_view(list(range(nx_ - 1)), list(range(ny_)))]
+            probes += [probes[1][0:1, :]] if nx_ >= 3 else []
+        if ny_ >= 2 and nx_ >= 1:
+            probes += [z[:, 1:]]
+        for pg in probes:
+            zid = l.get_zone_id(pg)
+            if zid is not None and not any(t.get(zid) == pg for t in (l.static_traps, l.special_grid)):
+                ctx.fail(case, f"get_zone_id of a grid that is no zone (a proper view / a shifted copy of zone '{n}') answers "
+                               f"{zid!r}, which maps to a different grid", key=case.get("key"))
+                break
     # two names may not denote the same grid
     zs = list(itertools.chain(l.static_traps.items(), l.special_grid.items()))
     for (n1, z1), (n2, z2) in itertools.combinations(zs, 2):
